@@ -50,6 +50,7 @@ Fault *Kernel::match_fault(CallId c, const std::string &path) {
     if (f.fired) continue;
     if (f.call != C_ANY && f.call != c) continue;
     if (f.call == C_ANY && (c == C_MALLOC)) continue;
+    if (c == C_EXIT && f.kind != "kill" && f.kind != "crash") continue;   // (nothing else can happen to an exit)
     if (f.actor.compare(0, 4, "tag:") == 0) { if (p->tag != f.actor.substr(4)) continue; }   // a process the world tagged at spawn ("tag:second")
     else if (!f.actor.empty()) { if (actor.empty()) actor = p->actor(); if (actor.compare(0, f.actor.size(), f.actor) != 0) continue; }
     if (!f.path.empty()) {
